@@ -54,18 +54,35 @@ def v_out_is_chunked_permutation(out, n, cs):
 @_intrinsic("queue_payload_free")
 def v_queue_payload_free(q):
     """no payload-carrying item is left in the queue (bookkeeping tokens without payload are ignored)"""
-    items = []
-    while True:
-        try:
-            items.append(q.get(False))
-        except Exception:
-            break
+    if hasattr(q, "_inspect"):
+        items = q._inspect()
+    else:
+        items = []
+        while True:
+            try:
+                items.append(q.get(False))
+            except Exception:
+                break
     return all(not (isinstance(it, tuple) and len(it) == 2 and it[1]) for it in items)
+
+
+@_intrinsic("queue_has_no_none")
+def v_queue_has_no_none(q):
+    """no None (stop token / sentinel) is left in the queue"""
+    return all(it is not None for it in q._inspect())
 
 
 @_intrinsic("queue_len")
 def v_queue_len(q):
     return q.qsize()
+
+
+@_intrinsic("next_worker")
+def v_next_worker(factory):
+    """harness factory: hand out the next pre-built worker (initial workers first, then spares)"""
+    wk = factory.all[factory.next]
+    factory.next += 1
+    return wk
 
 
 def _mon_key(obj, what):
@@ -171,6 +188,31 @@ def dispatch(ex, ts, pst, th, name, args, kwargs):
         ex.visible(ts, pst, "inspect %s" % q.name)
         st.append(z3.And(cs))
         return None
+    if name == "next_worker":
+        from vf.bmc.vm import Alternatives
+        fac = args[0]
+        n0 = "spare.next:i"
+        w.statevars.setdefault(n0, ("i", fac.next))
+        key = ("spare", id(fac))
+        if key not in pst.refchoice:
+            v = pst.read(n0, "i")
+            alts = []
+            for k in range(fac.next, len(fac.all)):
+                def prep(t, p, k=k):
+                    p.refchoice[key] = k
+                alts.append((v == I(k), prep))
+
+            def prep_over(t, p):
+                p.refchoice[key] = -1
+            alts.append((v >= I(len(fac.all)), prep_over))
+            raise Alternatives(alts)
+        k = pst.refchoice.pop(key)
+        if k < 0:
+            pst.set_flag("bound_exceeded", True)
+            k = len(fac.all) - 1
+        pst.write(n0, "i", I(k + 1))
+        st.append(fac.all[k])
+        return None
     if name == "mon_inc":
         n = "mon.%s:i" % _mon_key(args[0], args[1])
         w.declare(n, "i", 0)
@@ -192,6 +234,20 @@ def dispatch(ex, ts, pst, th, name, args, kwargs):
         tn = w.thread_of_obj.get(id(args[0])) or getattr(args[0], "_vf_name", None)
         ex.visible(ts, pst, "is_done %s" % tn)
         st.append(pst.read("done.%s:b" % tn, "b"))
+        return None
+    if name == "queue_has_no_none":
+        q = args[0]
+        from vf.bmc.values import unflatten, SOpt
+        w.declare("%s.len:i" % q.name, "i", 0)
+        ln = pst.read("%s.len:i" % q.name, "i")
+        proto = default_of(q.elem)
+        cs = []
+        for j in range(q.cap):
+            v = unflatten(proto, q.elem, "%s.%d" % (q.name, j), pst.read)
+            if isinstance(v, SOpt):
+                cs.append(z3.Implies(ln > I(j), z3.Not(v.is_none)))
+        ex.visible(ts, pst, "inspect %s" % q.name)
+        st.append(z3.And(cs) if cs else True)
         return None
     if name == "queue_len":
         q = args[0]
